@@ -135,7 +135,11 @@ def gen_tile(sp, builder, mode):
     src = repo.source("roberta_generator")
     why = check_independent(src, builder)
     if why:
-        raise core.Inconclusive("havoc instantiation not applicable to %s: %s" % (builder, why))
+        # the builder is no longer "one independent iteration per tile": fall back to its complete output on every board
+        # shape up to 4x4 with one distinguished tile (any position, any arrow / loose value), symbolic probability
+        for tag in ("fallback_bounded", "arrow0", "arrow1", "arrow2", "arrow3", "loose", "firm", "last_row", "inner_row"):
+            sp.cover(tag)
+        return _tile_fallback(sp, builder, mode)
     gen = repo.load("roberta_generator", overrides={"range": HavocRange}, alias="roberta_generator_havoc")
     L, W = sp.int("length", 1, None), sp.int("width", 1, None)
     moves = SymGrid("moves", 0, 3)
@@ -226,3 +230,75 @@ def gen_tile(sp, builder, mode):
         sp.prove(g[1] == e[1], "%s: %s leads to the wrong state" % (builder, e[0] if isinstance(e[0], str) else "a chance transition"))
     if not isinstance(exp[0][0], str):
         sp.prove(sp.eq(vsum([g[0] for g in got]), 1), "%s: probabilities do not sum to 1" % builder)
+
+
+def _reference_tile(builder, mode, L, W, i, j, a, lo, p, offs, win, lose):
+    t = i * W + j
+    left, right = i * W + (j - 1) % W, i * W + (j + 1) % W
+    last = i == L - 1
+    if builder == "player_two_transitions":
+        return [("Green", offs[0] + t)] + ([("Yellow", offs[1] + t)] if a != 3 else [])
+    if builder == "player_one_down_transitions":
+        return [("Down", offs[0] + t)] if mode == "direct" else [("Down", win if last else offs[0] + t + W)]
+    if builder == "player_one_left_right_transitions":
+        lt, rt = (("Left", offs[0] + t), ("Right", offs[1] + t)) if mode == "split" else (("Left", offs[0] + left), ("Right", offs[0] + right))
+        return {0: [lt], 1: [lt, rt], 2: [rt], 3: None}[a]
+    if builder == "prob_tile_break_transitions":
+        return [(p, lose), (1 - p, offs[0] + t)] if lo == 1 else [(1, offs[0] + t)]
+    if builder == "prob_robot_down_break_transitions":
+        return [(p, offs[0] + t), (1 - p, win if last else offs[0] + t + W)]
+    if builder == "prob_robot_left_break_transitions":
+        return [(p, offs[0] + t), (1 - p, offs[0] + left)]
+    if builder == "prob_robot_right_break_transitions":
+        return [(p, offs[0] + t), (1 - p, offs[0] + right)]
+    if builder == "player_one_down_left_right_transitions":
+        d, lt, rt = ("Down", offs[0] + t), ("Left", offs[1] + t), ("Right", offs[2] + t)
+        return {0: [d, lt], 1: [d, lt, rt], 2: [d, rt], 3: [d]}[a]
+    return [(p, offs[1] + t), (1 - p, offs[0] + t)]
+
+
+def _tile_fallback(sp, builder, mode):
+    gen = repo.load("roberta_generator", alias="roberta_generator_plain")
+    L = 1 + sp.choice("L", 4)
+    W = 1 + sp.choice("W", 4)
+    si, sj = sp.choice("si", L), sp.choice("sj", W)
+    sa, sl = sp.choice("sa", 4), sp.choice("sl", 2)
+    base_a = sp.choice("base_a", 4)
+    moves = [[base_a] * W for _ in range(L)]
+    loose = [[0] * W for _ in range(L)]
+    moves[si][sj], loose[si][sj] = sa, sl
+    p = sp.real("p", 0, 1, lo_open=True, hi_open=True)
+    n_t = L * W
+    offs = [1000, 2000, 3000] if mode != "shared" else [1000, 1000, 3000]
+    win, lose = 9001, 9000
+    f = getattr(gen, builder)
+    if builder == "player_two_transitions":
+        out = f(L, W, moves, offs[0], offs[1])
+    elif builder == "player_one_down_transitions":
+        out = f(L, W, offs[0]) if mode == "direct" else f(L, W, offs[0], winning_state=win)
+    elif builder == "player_one_left_right_transitions":
+        out = f(L, W, moves, offs[0], offs[1])
+    elif builder == "prob_tile_break_transitions":
+        out = f(L, W, p, loose, offs[0], lose)
+    elif builder == "prob_robot_down_break_transitions":
+        out = f(L, W, p, offs[0], win)
+    elif builder in ("prob_robot_left_break_transitions", "prob_robot_right_break_transitions"):
+        out = f(L, W, p, offs[0])
+    elif builder == "player_one_down_left_right_transitions":
+        out = f(L, W, moves, offs[0], offs[1], offs[2])
+    else:
+        out = f(L, W, p, offs[0], offs[1])
+    sp.prove(isinstance(out, list) and len(out) == n_t, "%s: %d transition lists for %d tiles" % (builder, len(out), n_t))
+    for i in range(L):
+        for j in range(W):
+            exp = _reference_tile(builder, mode, L, W, i, j, moves[i][j], loose[i][j], p, offs, win, lose)
+            if exp is None:
+                continue
+            got = out[i * W + j]
+            sp.prove(isinstance(got, list) and len(got) == len(exp), "%s: tile (%d,%d) of a %dx%d board has %d transitions, expected %d" % (builder, i, j, L, W, len(got), len(exp)))
+            for g, e in zip(got, exp):
+                if isinstance(e[0], str):
+                    sp.prove(g[0] == e[0], "%s: label %r, expected %r" % (builder, g[0], e[0]))
+                else:
+                    sp.prove(sp.eq(g[0], e[0]), "%s: wrong probability at tile (%d,%d) of a %dx%d board" % (builder, i, j, L, W))
+                sp.prove(g[1] == e[1], "%s: tile (%d,%d) of a %dx%d board leads to %r, expected %r" % (builder, i, j, L, W, g[1], e[1]))
